@@ -395,6 +395,7 @@ func evalC02(c c02Case, rec *hx.Rec) error {
 	if err != nil {
 		return err
 	}
+	runNoise(c.Set.Noise, 3, true)
 	// honest proof from the reference prover
 	rproof := ref.MultiProve(hx.G, ref.NewTranscript(c.Set.Label), b.CsRef, b.fsBig, b.zsInt)
 	h := tuple{label: c.Set.Label, Cs: b.CsRef, zs: b.zsInt, ys: b.ysBig, D: rproof.D, L: rproof.IPA.L, R: rproof.IPA.R, A: rproof.IPA.A, class: "honest", lenYs: -1, lenZs: -1}
